@@ -55,6 +55,8 @@ def run(ctx: Ctx):
         "decides the scale behaviour only: invariance under column rescaling requires degree 0 (necessary); optimality of the matching, the [0, 1] range, permutation invariance and the exact definitions are NOT decided",
         "a single scale per factor matrix is used (per-column rescaling is the same argument column by column; the metrics normalise with axis=0 norms)",
     )
+    res.rule("PERM-SPACE", "index-space typing of the matching permutation: congruence_coefficient returns, for each column of one argument, the matching column of the other (direction read from its source: rows / columns of the cross-product, order of linear_sum_assignment's result, dict(zip(...)) keys, enumeration); cp_permute_factors indexes the columns of the tensor to permute with a permutation whose values are column numbers of that same tensor and whose positions are the reference's components", floor=3)
+    ctx.guarded(perm_space, ctx)
     ctx.guarded(
         run_units,
         ctx,
@@ -63,3 +65,141 @@ def run(ctx: Ctx):
         "A, B = units of the first / second argument",
         "the metric then changes when one factor set (or data array) is rescaled, so it is neither invariant to the scaling indeterminacy nor equal to its definition",
     )
+
+
+# ---------------------------------------------------------------------------------
+# PERM-SPACE: which factor set a matching permutation indexes
+# ---------------------------------------------------------------------------------
+import ast
+
+from ..common import call_name, is_name, src
+from ..model import AnalysisError, own_scope_nodes
+
+CONGRUENCE = "tensorly.metrics.factors.congruence_coefficient"
+PERMUTE = "tensorly.cp_tensor.cp_permute_factors"
+
+
+def _perm_direction(ctx):
+    """Read from congruence_coefficient's source which way the returned permutation goes:
+    (index space, value space) as positions of its two matrix parameters.
+    rows of  dot(transpose(a), b)  are the columns of a, its columns those of b;
+    linear_sum_assignment(M) returns (row indices, column indices) of M; dict(zip(r, c)) maps
+    r to c; [d[i] for i in range(<number of columns of X>)] is indexed like its keys."""
+    f = ctx.repo.func(CONGRUENCE)
+    p1, p2 = f.pos_params[0], f.pos_params[1]
+    nodes = list(own_scope_nodes(f.node))
+    # the loop that pairs the two lists
+    pair = None
+    for s in nodes:
+        if isinstance(s, ast.For) and isinstance(s.iter, ast.Call) and is_name(s.iter.func, "zip") and len(s.iter.args) == 2 and isinstance(s.target, ast.Tuple) and len(s.target.elts) == 2 and all(isinstance(e, ast.Name) for e in s.target.elts):
+            a0, a1 = s.iter.args
+            if isinstance(a0, ast.Name) and isinstance(a1, ast.Name) and {a0.id, a1.id} == {p1, p2}:
+                pair = {s.target.elts[0].id: a0.id, s.target.elts[1].id: a1.id}
+    if pair is None:
+        raise AnalysisError("PERM-SPACE: congruence_coefficient no longer pairs its two arguments with zip(...); cannot decide")
+    rows = cols = None
+    for c in nodes:
+        if isinstance(c, ast.Call) and call_name(c) in ("dot", "matmul") and len(c.args) == 2:
+            l, r = c.args
+            if isinstance(l, ast.Call) and call_name(l) in ("transpose", "conj") and l.args:
+                inner = l.args[0]
+                while isinstance(inner, ast.Call) and inner.args:
+                    inner = inner.args[0]
+                if isinstance(inner, ast.Name) and inner.id in pair and isinstance(r, ast.Name) and r.id in pair:
+                    rows, cols = pair[inner.id], pair[r.id]
+    if rows is None or rows == cols:
+        raise AnalysisError("PERM-SPACE: the cross-product dot(transpose(a), b) of congruence_coefficient was not found; cannot decide")
+    # (row_ind, col_ind) = linear_sum_assignment(...)
+    ri = ci = None
+    for s in nodes:
+        if isinstance(s, ast.Assign) and isinstance(s.value, ast.Call) and call_name(s.value) == "linear_sum_assignment" and isinstance(s.targets[0], ast.Tuple) and len(s.targets[0].elts) == 2:
+            ri, ci = (e.id if isinstance(e, ast.Name) else None for e in s.targets[0].elts)
+    if not ri or not ci:
+        raise AnalysisError("PERM-SPACE: linear_sum_assignment result is no longer unpacked as (rows, columns); cannot decide")
+    # d = dict(zip(x, y)):  keys x, values y
+    key_space = val_space = dname = None
+    for s in nodes:
+        if isinstance(s, ast.Assign) and isinstance(s.value, ast.Call) and is_name(s.value.func, "dict") and s.value.args and isinstance(s.value.args[0], ast.Call) and is_name(s.value.args[0].func, "zip") and len(s.value.args[0].args) == 2 and isinstance(s.targets[0], ast.Name):
+            k, v = s.value.args[0].args
+            if isinstance(k, ast.Name) and isinstance(v, ast.Name) and {k.id, v.id} == {ri, ci}:
+                dname = s.targets[0].id
+                key_space = rows if k.id == ri else cols
+                val_space = cols if v.id == ci else rows
+    if dname is None:
+        raise AnalysisError("PERM-SPACE: the assignment is no longer turned into dict(zip(rows, columns)); cannot decide")
+    # the returned list [d[i] for i in range(number of columns of X[0])]
+    rets = [r for r in nodes if isinstance(r, ast.Return) and isinstance(r.value, ast.Tuple) and len(r.value.elts) == 2]
+    if not rets:
+        raise AnalysisError("PERM-SPACE: congruence_coefficient no longer returns (value, permutation); cannot decide")
+    pname = rets[0].value.elts[1]
+    comp = None
+    for s in nodes:
+        if isinstance(s, ast.Assign) and isinstance(pname, ast.Name) and is_name(s.targets[0], pname.id) and isinstance(s.value, ast.ListComp):
+            comp = s.value
+    if comp is None or not (isinstance(comp.elt, ast.Subscript) and is_name(comp.elt.value, dname)):
+        raise AnalysisError("PERM-SPACE: the returned permutation is no longer [assignment[i] for i in ...]; cannot decide")
+    rng_src = src(comp.generators[0].iter)
+    ranged = p1 if p1 in rng_src and p2 not in rng_src else (p2 if p2 in rng_src and p1 not in rng_src else None)
+    ok_internal = ranged == key_space
+    return f, (p1, p2), key_space, val_space, ok_internal, ranged
+
+
+def perm_space(ctx: Ctx):
+    res = ctx.res
+    f, (p1, p2), key_space, val_space, ok_internal, ranged = _perm_direction(ctx)
+    res.instance("PERM-SPACE", f"{f.name}: direction of the returned permutation", sample={"indexed_by_columns_of": key_space, "values_are_columns_of": val_space, "ranged_over": ranged, "ok": ok_internal})
+    if not ok_internal:
+        ctx.finding("PERM-SPACE", f, f.node, f"congruence_coefficient builds its permutation from an assignment keyed by the columns of `{key_space}` but enumerates it over the columns of `{ranged}`: the keys and the enumeration refer to different factor sets", construct="congruence_coefficient: permutation keys vs enumeration")
+    idx_pos = 0 if key_space == p1 else 1
+    val_pos = 1 - idx_pos
+    g = ctx.repo.func(PERMUTE)
+    ref_p, cand_p = g.pos_params[0], g.pos_params[1]
+    # families by name flow: a name assigned from an expression mentioning only one family belongs to it
+    fam = {ref_p: "REF", cand_p: "CAND"}
+    changed = True
+    while changed:
+        changed = False
+        for s in own_scope_nodes(g.node):
+            if isinstance(s, ast.Assign) and len(s.targets) == 1 and isinstance(s.targets[0], ast.Name):
+                used = {fam[n.id] for n in ast.walk(s.value) if isinstance(n, ast.Name) and n.id in fam}
+                if len(used) == 1:
+                    v = used.pop()
+                    if fam.get(s.targets[0].id) != v and s.targets[0].id not in (ref_p, cand_p):
+                        if s.targets[0].id in fam:
+                            fam[s.targets[0].id] = "MIXED"
+                        else:
+                            fam[s.targets[0].id] = v
+                        changed = True
+
+    def family(e):
+        fs = {fam[n.id] for n in ast.walk(e) if isinstance(n, ast.Name) and n.id in fam}
+        return fs.pop() if len(fs) == 1 else None
+
+    calls = [(s, s.value) for s in own_scope_nodes(g.node) if isinstance(s, ast.Assign) and isinstance(s.value, ast.Call) and call_name(s.value) == "congruence_coefficient"]
+    if not calls:
+        raise AnalysisError("PERM-SPACE: cp_permute_factors no longer calls congruence_coefficient; cannot decide")
+    n_uses = 0
+    for s, c in calls:
+        if len(c.args) < 2 or not (isinstance(s.targets[0], ast.Tuple) and len(s.targets[0].elts) == 2 and isinstance(s.targets[0].elts[1], ast.Name)):
+            raise AnalysisError("PERM-SPACE: the congruence_coefficient call in cp_permute_factors is no longer `_, perm = congruence_coefficient(a, b)`; cannot decide")
+        perm = s.targets[0].elts[1].id
+        idx_f, val_f = family(c.args[idx_pos]), family(c.args[val_pos])
+        # names holding the permutation (perm = T.tensor(perm, ...))
+        perms = {perm}
+        for s2 in own_scope_nodes(g.node):
+            if isinstance(s2, ast.Assign) and isinstance(s2.targets[0], ast.Name) and any(isinstance(n, ast.Name) and n.id in perms for n in ast.walk(s2.value)) and s2.targets[0].id not in fam:
+                perms.add(s2.targets[0].id)
+        for sub in own_scope_nodes(g.node):
+            if isinstance(sub, ast.Subscript):
+                idxs = sub.slice.elts if isinstance(sub.slice, ast.Tuple) else [sub.slice]
+                if any(isinstance(i, ast.Name) and i.id in perms for i in idxs):
+                    tf = family(sub.value)
+                    if tf is None:
+                        continue
+                    n_uses += 1
+                    ok = tf == val_f and idx_f == "REF"
+                    res.instance("PERM-SPACE", f"cp_permute_factors: {src(sub)[:60]}", sample={"line": sub.lineno, "indexed_tensor": tf, "permutation_values_are_columns_of": val_f, "permutation_indexed_by_columns_of": idx_f, "ok": ok})
+                    if not ok:
+                        ctx.finding("PERM-SPACE", g, sub, f"`{src(sub)[:80]}` picks columns of the {('reference' if tf == 'REF' else 'tensor to permute')} with a permutation whose entries are column numbers of the {('reference' if val_f == 'REF' else 'tensor to permute')} (congruence_coefficient returns, for each column of its argument {idx_pos + 1}, the matching column of its argument {val_pos + 1}): the inverse matching is applied, which only coincides with the right one for self-inverse permutations", construct=f"cp_permute_factors: {src(sub)[:60]} uses a permutation into the other factor set")
+    if n_uses == 0:
+        raise AnalysisError("PERM-SPACE: the permutation is not used to index columns any more; cannot decide")
